@@ -819,6 +819,12 @@ def run(run, model):
     from rules import c12 as _c12
     run.try_rule(_c12.r12_11, model)
     run.try_rule(r04_29, model)
+    # every position a diagnostic shows lies inside the text it refers to (shared with C12 R12.13)
+    try:
+        from lib.mir import Mir as _Mir
+        run.try_rule(_c12.r12_13, model, _Mir(run.facts))
+    except AnalysisIncomplete as e_:
+        run.skipped.append({"rule_fn": "r12_13", "reason": str(e_)})
     run.rule("R04.28", "an end-of-input question costs no stuck-parser fuel: Parser::eof reads the token stream, not the fuel-limited peek() - "
                        "the Pratt loops ask eof() once per open frame while a right-nested chain unwinds, so a fuel-spending eof() halves the "
                        "nesting the budget covers and the pretended end of input then reaches an `assert!(p.at(..))` (shared with C12 R12.2)")
